@@ -170,10 +170,10 @@ fn main() {
         name: "loom",
         explore: Box::new(|cx: &Cx| {
             let bound = match cx.tier {
-                Tier::Quick => Some(2),
-                Tier::Thorough => Some(4),
+                Tier::Quick => Some(3),
+                Tier::Thorough => None,
             };
-            cx.rule("loom", &format!("every interleaving (loom DPOR, preemption bound {:?}) of 2-3 threads, each running a fixed list of clone/wake/wake_by_ref/drop on a foreign-side waker obtained inside one with_waker call — wakers of one family (sharing one CRawWaker) and separate clones — over the real task/mod.rs compiled against a loom-backed tarc::BaseArc; oracle: caller's refcount never below 1, woken once per wake operation, refcount back to 1 at the end; evaluations = schedules", bound));
+            cx.rule("loom", &format!("every interleaving (loom DPOR, preemption bound {:?}; None = unbounded) of 2-3 threads, each running a fixed list of clone/wake/wake_by_ref/drop on a foreign-side waker obtained inside one with_waker call — wakers of one family (sharing one CRawWaker) and separate clones — over the real task/mod.rs compiled against a loom-backed tarc::BaseArc; oracle: caller's refcount never below 1, woken once per wake operation, refcount back to 1 at the end; evaluations = schedules", bound));
             let mut total = 0;
             for (i, (name, fam, acts)) in SCENARIOS.iter().enumerate() {
                 let case = json!({"scenario": name, "index": i, "same_family": fam, "threads": format!("{:?}", acts), "preemption_bound": bound});
